@@ -1369,4 +1369,165 @@ theorem Vals.nth_set : ∀ (xs : Vals) (i : Nat) (x : GoVal), (xs.nth i).isSome 
     simpa [Vals.set, Vals.nth] using Vals.nth_set r i x h
 
 
+/-! ### several arguments (`callArgs`) and reused VMs (`reuseRead`) -/
+
+theorem callArg_eq_convArg (F : FOps) (pt : GoTy) (o : Obj) :
+    callArg F pt o = match convArg F pt o with
+      | .ok (some x) => .ok x
+      | .ok none => .panic
+      | .error => .error
+      | .panic => .panic := by
+  unfold callArg convArg
+  by_cases hc : convOK pt = false
+  · simp [hc]
+  · simp only [hc, if_false]
+    cases o <;> simp only <;> first
+      | rfl
+      | (generalize toGo F .get pt _ = r
+         cases r with
+         | error => rfl
+         | panic => rfl
+         | ok d =>
+           cases d with
+           | none => rfl
+           | some p =>
+             obtain ⟨d, x⟩ := p
+             simp only
+             cases ha : assignable pt d <;> simp)
+
+theorem allSome_map_some : ∀ (xs : Vals), allSome (xs.toList.map some) = some xs
+  | .nil => rfl
+  | .cons x r => by simp [Vals.toList, allSome, allSome_map_some r]
+
+theorem reprArgs_length (F : FOps) : ∀ (pts : Fields) (xs : Vals) (os : Objs),
+    reprArgs F pts xs os = true → xs.length = pts.length
+  | .nil, .nil, .nil, _ => rfl
+  | .nil, .nil, .cons _ _, h => by simp [reprArgs] at h
+  | .nil, .cons _ _, _, h => by simp [reprArgs] at h
+  | .cons _ _, .nil, _, h => by simp [reprArgs] at h
+  | .cons _ _, .cons _ _, .nil, h => by simp [reprArgs] at h
+  | .cons _ ts, .cons _ xs, .cons _ os, h => by
+    simp only [reprArgs, Bool.and_eq_true] at h
+    simp [Vals.length, Fields.length, reprArgs_length F ts xs os h.2]
+
+theorem toList_map_length : ∀ (xs : Vals), (xs.toList.map some).length = xs.length
+  | .nil => rfl
+  | .cons _ r => by simp [Vals.toList, Vals.length, ← toList_map_length r]
+
+theorem convArgs_good (F : FOps)
+    (hpos : ∀ pt o, wfW o = true → callGuards F pt o = [] → specWrite F pt o (callArg F pt o) = true) :
+    ∀ (pts : Fields) (os : Objs), wfWs os = true →
+    callNGuards F pts os = [] →
+    convArgs F pts os = .error ∨ ∃ xs : Vals, convArgs F pts os = .ok (xs.toList.map some) ∧
+      (xs.length < pts.length ∨ reprArgs F pts xs os = true)
+  | .nil, .nil, _, _ => Or.inr ⟨.nil, rfl, Or.inr rfl⟩
+  | .nil, .cons _ _, _, hg => by simp [callNGuards] at hg
+  | .cons _ _, .nil, _, _ => Or.inr ⟨.nil, rfl, Or.inl (by simp [Vals.length, Fields.length])⟩
+  | .cons pt pts, .cons o r, hw, hg => by
+    simp only [wfWs, Bool.and_eq_true] at hw
+    simp only [callNGuards] at hg
+    obtain ⟨hg1, hg2⟩ := append_nil' hg
+    have h1 := hpos pt o hw.1 hg1
+    rw [callArg_eq_convArg] at h1
+    unfold convArgs
+    cases hc : convArg F pt o with
+    | error => left; rfl
+    | panic => rw [hc] at h1; simp [specWrite] at h1
+    | ok x =>
+      rw [hc] at h1
+      cases x with
+      | none => simp [specWrite] at h1
+      | some x =>
+        simp only [specWrite] at h1
+        rcases convArgs_good F hpos pts r hw.2 hg2 with he | ⟨xs, hx, hr⟩
+        · left; simp [Outcome.bind, he, Outcome.map]
+        · right
+          refine ⟨.cons x xs, by simp [Outcome.bind, hx, Outcome.map, Vals.toList], ?_⟩
+          rcases hr with hl | hr
+          · left; simp [Vals.length, Fields.length]; omega
+          · right; simp [reprArgs, h1, hr]
+
+theorem find_filter_ne (n m : Nat) (hne : (m == n) = false) : ∀ (l : List Binding),
+    (l.filter (fun x => x.1 != m)).find? (fun b => b.1 == n) = l.find? (fun b => b.1 == n)
+  | [] => rfl
+  | b :: r => by
+    by_cases hb : b.1 = m
+    · have h2 : (b.1 == n) = false := by rw [hb]; exact hne
+      simp [List.filter, hb, List.find?, hne, find_filter_ne n m hne r]
+    · have h1 : (b.1 != m) = true := by simp [hb]
+      simp only [List.filter, h1, List.find?]
+      cases hbn : (b.1 == n) with
+      | true => rfl
+      | false => exact find_filter_ne n m hne r
+
+theorem held_find (n : Nat) : ∀ (hist : List Binding),
+    (held hist).find? (fun b => b.1 == n) = hist.find? (fun b => b.1 == n)
+  | [] => rfl
+  | b :: r => by
+    simp only [held, List.find?]
+    cases hbn : (b.1 == n) with
+    | true => rfl
+    | false => simp only; rw [find_filter_ne n b.1 hbn, held_find n r]
+
+theorem convertAll_lookup (F : FOps) (n : Nat) : ∀ (l : List Binding) (gs : List (Nat × Obj)),
+    convertAll F l = .ok gs →
+    match l.find? (fun b => b.1 == n) with
+    | some b => ∃ o, fromGo F .create b.2.1 b.2.2 = .ok o ∧ lookupObj n gs = some o
+    | none => lookupObj n gs = none
+  | [], gs, h => by
+    simp only [convertAll, Outcome.ok.injEq] at h
+    subst h
+    rfl
+  | (m, ty, v) :: r, gs, h => by
+    simp only [convertAll] at h
+    cases hf : fromGo F .create ty v with
+    | error => simp [hf, Outcome.bind] at h
+    | panic => simp [hf, Outcome.bind] at h
+    | ok o =>
+      cases hr : convertAll F r with
+      | error => simp [hf, hr, Outcome.bind, Outcome.map] at h
+      | panic => simp [hf, hr, Outcome.bind, Outcome.map] at h
+      | ok gs' =>
+        simp only [hf, hr, Outcome.bind, Outcome.map, Outcome.ok.injEq] at h
+        subst h
+        simp only [List.find?, lookupObj]
+        cases hmn : (m == n) with
+        | true => exact ⟨o, hf, by simp⟩
+        | false => simpa using convertAll_lookup F n r gs' hr
+
+theorem convertAll_no_panic (F : FOps) : ∀ (l : List Binding),
+    (∀ b ∈ l, fromGo F .create b.2.1 b.2.2 ≠ .panic) → convertAll F l ≠ .panic
+  | [], _ => by simp [convertAll]
+  | (m, ty, v) :: r, h => by
+    have h1 := h (m, ty, v) (by simp)
+    have h2 := convertAll_no_panic F r (fun b hb => h b (by simp [hb]))
+    simp only [convertAll]
+    cases hf : fromGo F .create ty v with
+    | error => simp [Outcome.bind]
+    | panic => exact absurd hf h1
+    | ok o =>
+      cases hr : convertAll F r with
+      | error => simp [Outcome.bind, Outcome.map]
+      | panic => exact absurd hr h2
+      | ok gs => simp [Outcome.bind, Outcome.map]
+
+theorem heldGuards_mem : ∀ (l : List Binding), heldGuards l = [] →
+    ∀ b ∈ l, clean .create b.2.1 b.2.2 = true
+  | [], _, b, hb => by simp at hb
+  | (m, ty, v) :: r, h, b, hb => by
+    simp only [heldGuards] at h
+    obtain ⟨h1, h2⟩ := append_nil' h
+    simp only [List.mem_cons] at hb
+    rcases hb with rfl | hb
+    · simp [clean, h1]
+    · exact heldGuards_mem r h2 b hb
+
+theorem held_sub : ∀ (hist : List Binding), ∀ b ∈ held hist, b ∈ hist
+  | [], b, hb => by simp [held] at hb
+  | a :: r, b, hb => by
+    simp only [held, List.mem_cons, List.mem_filter] at hb
+    rcases hb with rfl | ⟨hb, _⟩
+    · simp
+    · simp [held_sub r b hb]
+
 end Risor.C08
